@@ -22,6 +22,7 @@ def ouStep (s : St) (ws : List String) : St × String :=
     | ["apirun"] => some .apiRun
     | ["poll"] => some .poll
     | ["probe"] => some .probe
+    | ["nodebehind"] => some .nodeBehind
     | _ => none
   match ws, act with
   | ["end"], _ => (s, s!"api={fmtApi s.api} chain={fmtChain s.chain}")
